@@ -87,6 +87,16 @@ func discharge(fx *FnExec, obls []*Obligation, opt dischargeOpts) {
 			defer func() { <-sem }()
 			r := Solve(j.script, opt.workdir, j.o.Name, opt.timeoutMs, opt.all)
 			j.o.Status, j.o.Backend, j.o.Ms, j.o.Output = r.Status, r.Backend, r.Ms, r.Output
+			if j.o.Status != "unsat" && !j.o.Cover {
+				for i, alt := range j.o.Alts {
+					s2 := c.Query(j.o.Assume, c.Implies(j.o.PC, alt), nil, opt.timeoutMs)
+					r2 := Solve(s2, opt.workdir, fmt.Sprintf("%s.alt%d", j.o.Name, i), opt.timeoutMs, false)
+					if r2.Status == "unsat" {
+						j.o.Status, j.o.Backend, j.o.Output = "unsat", r2.Backend+"+witness", r2.Output
+						break
+					}
+				}
+			}
 		}(j)
 	}
 	wg.Wait()
